@@ -217,7 +217,7 @@ def main():
     w("Section Forms.\n  Variable C : Type.\n  Variables (c0 c1 : C) (cadd cmul csub : C -> C -> C) (copp : C -> C).\n"
       "  Notation \"0\" := c0. Notation \"1\" := c1.\n  Infix \"+\" := cadd. Infix \"*\" := cmul. Infix \"-\" := csub.\n"
       "  Notation N n := (kz c0 c1 cadd cmul copp n%Z).\n"
-      "  (* every form takes all ring operations as parameters, used or not *)\n"
+      "  (* every form takes all ring operations as arguments, used or not *)\n"
       "  Notation USE := (c0, c1, cadd, cmul, csub, copp).\n\n")
     qargs = " ".join(QV)
     pargs = " ".join(PV)
